@@ -803,8 +803,11 @@ def extract_pointers(src, facts, notes):
     PT = dict(forms={}, diffs=[])
     for g, lst in golden_forms.GOLDEN.items():
         ok = True
-        for f, q, txt in lst:
+        for ent in lst:
+            f, q, txt = ent[:3]
             r = src.find_fns(f, q)
+            if len(ent) > 3:      # several impls define this name: the impl header selects one
+                r = [x for x in r if x[1] is not None and ent[3] in toks_text(x[1].header)]
             if len(r) != 1 or toks_text(r[0][2].body) != txt:
                 ok = False; PT['diffs'].append('%s:%s' % (f, q))
         PT['forms'][g] = ok
@@ -859,7 +862,7 @@ def extract_pointers(src, facts, notes):
 def emit_pointers(PT):
     b = lambda x: 'true' if x else 'false'
     out = ['(* --- pointer plumbing (compared with the bodies the model was written against) and ArcUnion tag arithmetic --- *)']
-    for g in ['arc_raw', 'offset', 'borrow', 'thin', 'union', 'swap']:
+    for g in ['arc_raw', 'offset', 'borrow', 'thin', 'union', 'swap', 'ctor']:
         out.append('Definition %s_forms_ok : bool := %s.' % (g, b(PT['forms'].get(g))))
     U = PT['union']
     out.append('Definition union_tag1 : bexpr := %s.' % U['tag1'])
